@@ -3,6 +3,7 @@ import Driver.SorterCmd
 import Driver.EngineCmd
 import Driver.TreeCmd
 import Driver.ProvCmd
+import Driver.HashCmd
 /-! `driver`: one request per line on stdin, one answer per line on stdout. -/
 namespace Driver
 
@@ -11,6 +12,7 @@ structure St where
   engine : EngineSt := {}
   tree : TreeSt := {}
   prov : ProvSt := {}
+  hash : HashSt := {}
 
 def step (st : St) (line : String) : St × String :=
   let (cmd, args) := parseLine line
@@ -26,6 +28,9 @@ def step (st : St) (line : String) : St × String :=
   else if cmd.startsWith "prov." then
     let (s, out) := provHandle st.prov cmd args
     ({ st with prov := s }, out)
+  else if cmd.startsWith "hash." || cmd.startsWith "path." then
+    let (s, out) := hashHandle st.hash cmd args
+    ({ st with hash := s }, out)
   else if cmd == "ping" then (st, "pong")
   else (st, "bad-op")
 
